@@ -145,11 +145,24 @@ func (w *writer) nl(def int, last bool) {
 		case 0: // single final newline
 			w.emit(w.eol)
 		case 1:
+			if w.pick(4, "eof_blank") == 3 {
+				w.emit("  ") // trailing blanks without a newline: removed by the documented pre-pass
+				w.feat["trailing-whitespace"] = true
+			}
 			w.feat["no-final-newline"] = true
 		case 2:
-			// exactly one blank before '#': the comment rule cuts at " #", and blanks left in front of it
-			// would be a WHITESPACE token before EOF, which the grammar does not derive
-			w.emit(" #" + w.commentText())
+			// trailing comment on the last line, no final newline. The documented pre-pass cuts at " #" and then
+			// removes trailing blanks, so any number of blanks (and tabs before them) may precede the '#'
+			switch w.pick(4, "eof_comment_gap") {
+			case 0, 1:
+				w.emit(" #" + w.commentText())
+			case 2:
+				w.emit("   #" + w.commentText())
+				w.feat["extra-spaces"] = true
+			default:
+				w.emit("\t  #" + w.commentText())
+				w.feat["tabs"] = true
+			}
 			w.feat["trailing-comments"] = true
 			w.feat["no-final-newline"] = true
 		case 3:
